@@ -8,15 +8,19 @@ also put to a registry chain that received the same mutations and never performe
 from .. import core, runner
 from . import worldcommon
 
-THEOREMS = ["ZI.Cache.C05_transparent", "ZI.Cache.inv_run", "ZI.Cache.inv_step", "ZI.Cache.lookup_transparent", "ZI.Cache.run_reg_sro", "ZI.Cache.wf_erase"]
+THEOREMS = ["ZI.Cache.C05_transparent", "ZI.Cache.inv_run", "ZI.Cache.inv_step", "ZI.Cache.lookup_transparent", "ZI.Cache.run_reg_sro", "ZI.Cache.wf_erase",
+            # on the registry model the correspondence validates (notifying flavour, static specification graph)
+            "ZI.Registry.C05_registry_cacheOk", "ZI.Registry.C05_registry_transparent_lookup", "ZI.Registry.C05_registry_transparent_lookupAll",
+            "ZI.Registry.C05_registry_transparent_subscriptions", "ZI.Registry.C05_registry_erase", "ZI.Registry.goodBases_reachable"]
 PROFILE = dict(weights=[4, 1.5, 2, 1.5, 2.5, 2.5, 2.5, 1.6, 0.3], nregs=(2, 4), extra=2, provq=1)
 LOOKUPS = ("lookup", "lookup1", "lookupAll", "names", "subs", "qadapter", "subscribers")
 
 
 def check(tier):
     chk = core.Check("C05", tier)
-    chk.obligations(THEOREMS, ["refinement of the integrated World model (three caches, both flavours, weak tables) to the abstract cache machine on which "
-                               "C05_transparent is proved (invariants I3-I5 of DESIGN.md 6/C05: sub-registry notification, generation snapshots, ro = C3 of current bases)"])
+    chk.obligations(THEOREMS, ["refinement of the integrated World model to the abstract cache machine for specification changes (dynamic graph, weak tables) "
+                               "and for the generation-checking flavour; for registry-side histories of the notifying flavour the statement is PROVED on the "
+                               "validated registry model itself (C05_registry_cacheOk / _transparent_* / _erase: I3 sub-registry notification, I5 ro = C3 of current bases)"])
     rnd = core.rng("C05")
     gen = worldcommon.WorldGen(rnd, tier, PROFILE)
     scripts = [gen.script(i % 2) for i in range({"quick": 60, "thorough": 900}[tier])]
